@@ -84,6 +84,31 @@ func c05(c *Ctx) {
 	}
 	for _, et := range allEtypes {
 		e, _ := crypto.GetEtype(et)
+		// the block-level interface every etype exports: DecryptData(EncryptData(x)) = x on whole blocks, no panic on
+		// the other members with arbitrary arguments
+		for _, l := range []int{16, 24, 32, 40, 64, 128} {
+			key := randKey(c, et)
+			data := make([]byte, l)
+			c.R.Read(data)
+			var ed, back []byte
+			var e1, e2 error
+			p, _ := guard(func() {
+				_, ed, e1 = e.EncryptData(key.KeyValue, append([]byte{}, data...))
+				if e1 == nil {
+					back, e2 = e.DecryptData(key.KeyValue, append([]byte{}, ed...))
+				}
+			})
+			c.Check(!p && e1 == nil && e2 == nil && bytes.Equal(back, data), "DecryptData(EncryptData(x)) = x on whole blocks", "block-roundtrip", fmt.Sprint(e1, e2), map[string]interface{}{"etype": et, "len": l})
+			p2, _ := guard(func() {
+				e.VerifyIntegrity(key.KeyValue, ed, data, 3)
+				e.VerifyIntegrity(key.KeyValue, nil, nil, 3)
+				e.DeriveRandom(key.KeyValue, []byte{0, 0, 0, 3, 0xaa})
+				e.RandomToKey(make([]byte, e.GetKeySeedBitLength()/8)) // its domain: a seed of the etype's own length
+				e.GetHashFunc()
+			})
+			c.Check(!p2, "the etype's other members do not panic", "etype-member-panics", "", map[string]interface{}{"etype": et, "len": l})
+			c.Count("block-interface")
+		}
 		for _, l := range lens {
 			for rep := 0; rep < reps; rep++ {
 				key := randKey(c, et)
